@@ -274,6 +274,30 @@ def run(ctx):
     if not okh:
         res.add(Finding('C20', 'C20.d', 'R-PROV', ro.file, ro.qualname, ro.node.lineno, 'output holder', 'the output holder is not built from the deserialised (content, path) pair in that order'))
 
+    # ---------------- handlers keep no per-call state on the instance (one handler serves concurrent and repeated calls)
+    cs = res.clause('C20.f', 'R-PROV', 'file handlers keep no per-call state on the instance', floor=3)
+    for c in (fi, inp, outp):
+        writes = []
+        for m in c.methods.values():
+            if m.name == '__init__':
+                continue
+            for n in ast.walk(m.node):
+                if isinstance(n, (ast.Assign, ast.AugAssign)):
+                    for t in (n.targets if isinstance(n, ast.Assign) else [n.target]):
+                        base = t
+                        while isinstance(base, ast.Subscript):
+                            base = base.value
+                        if self_attr(base):
+                            writes.append((m, n))
+                if isinstance(n, ast.Call) and isinstance(n.func, ast.Attribute) and n.func.attr in ('setdefault', 'append', 'update', 'add') and self_attr(n.func.value):
+                    writes.append((m, n))
+        cs.instance('%s: no method other than __init__ stores into the handler' % c.name, c.name, not writes)
+        cs.evaluations += 1
+        for m, n in writes[:1]:
+            res.add(Finding('C20', 'C20.f', 'R-PROV', m.file, m.qualname, n.lineno, norm(n)[:120],
+                            'the handler keeps per-call data on the instance (%s): two interceptions that overlap (threads) or repeat (same path, other '
+                            'bytes) read each other\'s path / content' % norm(n)[:80]))
+
     # ---------------- C20.e limit source
     oke = False
     first = [s for s in calc.node.body if not (isinstance(s, ast.Expr) and isinstance(s.value, ast.Constant))]
